@@ -561,8 +561,8 @@ def special_projects(chk, scratch):
         t.entry = os.path.join(edir, "main.incn")
         if missing_entry:
             t.imports.pop(t.entry, None)
-        # 1000-module projects: in the quick tier only the real code runs on them (oracle: terminates, CLI = LSP set)
-        no_model = chk.tier == "quick" and len(files) > 300
+        # projects with more than 20 modules: in the quick tier only the real code runs on them (oracle: terminates, CLI = LSP set)
+        no_model = chk.tier == "quick" and len(files) > 20
         out.append({"tree": t, "edir": edir, "ab": True, "cwd_rel": None, "plain": not no_model and False, "special": name, "no_model": no_model})
 
     sizes = SCALE if chk.tier == "thorough" else [n for n in SCALE if n != 255]
@@ -590,7 +590,7 @@ def special_projects(chk, scratch):
 
 def part_B(chk, binary, scratch, res_broken):
     rng = chk.rng
-    n = 110 if chk.tier == "quick" else 400
+    n = 90 if chk.tier == "quick" else 400
     projs = []
     for k in range(n):
         plain = rng.random() < 0.4
@@ -855,7 +855,7 @@ def part_C(chk, binary, scratch, res_broken):
                     t.add(os.path.join(os.path.dirname(mfile), "n.incn"), decl_text("fn", "fpn", True) + "\n" + decl_text("fn", "fqn", False))
                     ndecls = [("fn", "fpn", True, ()), ("fn", "fqn", False, ())]
                     mimp = (False, 0, ["n"]) if layout != "nested" else (False, 0, ["pkg", "n"])
-                    t.add(mfile, "\n".join(decl_text(*d) for d in decls), [import_text(None, "F", mimp[0], mimp[1], mimp[2], item="fpn", style=0)])
+                    t.add(mfile, '"""module docstring"""\n' + "\n".join(decl_text(*d) for d in decls), [import_text(None, "F", mimp[0], mimp[1], mimp[2], item="fpn", style=0)])
                     t.decls = {mfile: decls, os.path.join(os.path.dirname(mfile), "n.incn"): ndecls}
                     mod_alias = isegs[-1]
                     # (import statements as (rec, items, alias, text), uses as (text, model term), referenced (name, pub))
@@ -885,8 +885,11 @@ def part_C(chk, binary, scratch, res_broken):
                             entries.append(("import-m use-m.x()", [imp_mod()], [("Q", (mod_alias, xname), call)], [(xname, xpub)]))
                             call2 = use_text(ukind, xname, "u0").replace(xname, "mq." + xname, 1)
                             entries.append(("import-m-as use-q.x()", [imp_mod("mq")], [("Q", ("mq", xname), call2)], [(xname, xpub)]))
+                            # the module name itself is not bound by a `from` import
+                            entries.append(("from-x use-m.x() (m unbound)", [imp_from([(xname, None)])], [("Q", (mod_alias, xname), call)], [(xname, xpub)]))
                         if kind == "const":
                             entries.append(("import-m use-m.X", [imp_mod()], [("F", (mod_alias, xname), "    u0 = %s.%s" % (mod_alias, xname))], [(xname, xpub)]))
+                            entries.append(("from-x use-m.X (m unbound)", [imp_from([(xname, None)])], [("F", (mod_alias, xname), "    u0 = %s.%s" % (mod_alias, xname))], [(xname, xpub)]))
                         if kind == "enum":
                             entries.append(("from-variant use-variant", [imp_from([("Vx", None)])], [("N", "Vx", use_text("variant", "Vx", "u0"))], [("Vx", xpub)]))
                             entries.append(("import-m use-variant", [imp_mod()], [("N", "Wx", use_text("variant", "Wx", "u0"))], [("Wx", xpub)]))
@@ -902,6 +905,28 @@ def part_C(chk, binary, scratch, res_broken):
                         t.add(os.path.join(edir, stem + ".incn"), body, [i[3] for i in imps])
                         cases.append({"tree": t, "layout": layout, "kind": kind, "label": label, "imps": imps, "uses": uses, "refs": refs,
                                       "edir": edir, "stem": stem, "xpub": xpub, "ypub": ypub, "mfile": mfile})
+    # two loaded modules whose names (segments joined by `_`) coincide: `m` and `..m`, `a_b` and `a.b`
+    for cname, f1, f2, i1, i2, edir in (("samename", "sub/m.incn", "m.incn", (False, 0, ["m"]), (False, 1, ["m"]), "sub"),
+                                        ("underscore", "a_b.incn", "a/b.incn", (False, 0, ["a_b"]), (False, 0, ["a", "b"]), "")):
+        for p1 in (False, True):
+            for p2 in (False, True):
+                t = Tree(scratch, "v%d" % k)
+                k += 1
+                trees.append(t)
+                t.add(f1, decl_text("fn", "fx", p1))
+                t.add(f2, decl_text("fn", "fx", p2))
+                t.decls = {f1: [("fn", "fx", p1, ())], f2: [("fn", "fx", p2, ())]}
+                for j, order in enumerate(((0, 1), (1, 0))):
+                    specs = [(i1, None, p1), (i2, "fz", p2)]
+                    imps = []
+                    for o in order:
+                        (iab_, ilv_, isg_), al, _ = specs[o]
+                        imps.append((("F", iab_, ilv_, isg_), [("fx", al)], None, import_text(rng, "F", iab_, ilv_, isg_, item="fx" + (" as " + al if al else ""))))
+                    stem = "zq%d" % j
+                    t.add(os.path.join(edir, stem + ".incn"), "def main() -> None:\n    u0 = fx()\n    u1 = fz()\n", [i[3] for i in imps])
+                    cases.append({"tree": t, "layout": "collide-" + cname, "kind": "fn", "label": "collide %s order %d%d" % (cname, order[0], order[1]),
+                                  "imps": imps, "uses": [("N", "fx", ""), ("N", "fz", "")], "refs": [("fx@" + f1, p1), ("fx@" + f2, p2)],
+                                  "edir": edir, "stem": stem, "xpub": p1, "ypub": p2, "mfile": f1})
     # constructed cycles and missing modules (flat projects: no resolver class applies)
     cyc = []
     for n in (1, 2, 3, 4):
@@ -920,6 +945,13 @@ def part_C(chk, binary, scratch, res_broken):
         t.add("main.incn", "def main() -> None:\n    pass\n", [txt])
         t.add("pkg/other.incn", "pub def zz() -> int:\n    return 1\n")
         cyc.append({"tree": t, "what": "missing", "text": txt})
+    for nm, body in (("parse", "def broken(:\n"), ("lex", 'def f() -> str:\n    return "unterminated\n'), ("tabs", "def f() -> int:\n\t  \treturn 1\n     x = 2\n")):
+        t = Tree(scratch, "y8%s" % nm)
+        trees.append(t)
+        t.add("main.incn", "def main() -> None:\n    pass\n", ["from ok import zz", "from bad import zz as z2"])
+        t.add("ok.incn", "pub def zz() -> int:\n    return 1\n")
+        t.add("bad.incn", body)
+        cyc.append({"tree": t, "what": "malformed dependency (%s error)" % nm})
     for t in trees:
         t.write()
     lines = []
@@ -964,18 +996,25 @@ def part_C(chk, binary, scratch, res_broken):
             corr_bad.append(dict(desc, which="collect", impl=[o_cli[:300], o_lsp[:300]]))
             parsed.append(None)
             continue
-        by_r = {tuple(t.rendered(rp)): rp for rp in t.files}
         cli_deps = []
-        for r, segs in mods[1][:-1]:
-            rp = by_r.get(tuple(r))
-            cli_deps.append((segs, t.decls.get(rp, [])))
+        for mtxt in [x for x in o_mods.split(";") if x][:-1]:
+            name, _, fid = mtxt.split(",")
+            cli_deps.append((name.split("_"), t.decls.get(fid, [])))
         lsp_deps = []
         for d in [x for x in ml.group(1).split(";") if x]:
             rp = d[len(t.name) + 1:]
-            lsp_deps.append(([code(os.path.basename(rp).rsplit(".", 1)[0])], t.decls.get(rp, [])))
+            lsp_deps.append((os.path.basename(rp).rsplit(".", 1)[0].split("_"), t.decls.get(rp, [])))
+
+        def atoms(names):
+            """the checker's module name is the segments joined by `_`; the model's name is a list: split at `_`"""
+            return [code(a) for n in names for a in n.split("_")]
+
         def deps_term(deps):
-            return "[" + "; ".join("(%s, [%s])" % (zl(n), "; ".join(decl_term(*d) for d in ds)) for n, ds in deps) + "]"
-        imps_t = "[" + "; ".join("(VI %s [%s] %s)" % (imp_term(rec), "; ".join("(%d, %s)" % (code(nm), "Some %d" % code(a) if a else "None") for nm, a in items),
+            return "[" + "; ".join("(%s, [%s])" % (zl(atoms(n)), "; ".join(decl_term(*d) for d in ds)) for n, ds in deps) + "]"
+
+        def imp_term_c(rec):
+            return imp_term(rec) if rec[0] != "F" else "(I KFrom %s %d %s)" % (cb(rec[1]), rec[2], zl(atoms(rec[3])))
+        imps_t = "[" + "; ".join("(VI %s [%s] %s)" % (imp_term_c(rec), "; ".join("(%d, %s)" % (code(nm), "Some %d" % code(a) if a else "None") for nm, a in items),
                                                       "(Some %d)" % code(al) if al else "None") for rec, items, al, _ in c["imps"]) + "]"
         uses_t = "[" + "; ".join(("UName %d" % code(u[1])) if u[0] == "N" else ("%s %d %d" % ("UQual" if u[0] == "Q" else "UField", code(u[1][0]), code(u[1][1]))) for u in c["uses"]) + "]"
         own = "[D %d false DFn]" % code("main")
@@ -995,6 +1034,22 @@ def part_C(chk, binary, scratch, res_broken):
         m_cli, m_lsp = [list(x) for x in m_cli], [list(x) for x in m_lsp]
         desc = c["desc"]
         chk.count_case((c["tree"].name, c["label"]), nontrivial=True)
+        for v_ in c["imps"]:
+            rec, items, al, _ = v_
+            if rec[0] == "M":
+                arm(chk, "validate_import_visibility/import (never validated)")
+                arm(chk, "import_binds/module " + ("alias" if al else "last segment"))
+            else:
+                arm(chk, "import_binds/from " + ("alias" if any(a for _, a in items) else "item name"))
+                n1 = sum(1 for d in m_cli if d[0] == 1)
+                arm(chk, "validate_import_visibility/from: " + ("some item not exported" if n1 else "all exported or module not loaded"))
+        for u_, d_ in ((u, None) for u in c["uses"]):
+            kind_ = {"N": "UName", "Q": "UQual", "F": "UField"}[u_[0]]
+            nm_ = u_[1] if u_[0] == "N" else u_[1][0]
+            unbound = [2, code(nm_)] in m_cli
+            arm(chk, "check_entry/%s %s" % (kind_, "unbound -> diag 2" if unbound else ("bound -> diag 3" if kind_ == "UField" else "bound")))
+        arm(chk, "exported_names/" + ("DEnum" if c["kind"] == "enum" else "other kinds") + (" pub" if c["xpub"] else " private"))
+        arm(chk, "dep_exports/" + ("two modules with one name (last wins)" if c["layout"].startswith("collide") else "unique names"))
         if m_cli != real_cli:
             corr_bad.append(dict(desc, which="check_with_imports (CLI dependencies)", impl=real_cli, model=m_cli))
         if m_lsp != real_lsp:
@@ -1013,6 +1068,8 @@ def part_C(chk, binary, scratch, res_broken):
                     cls = "qualified-use-unchecked"
                 elif side == "lsp" and c["layout"] == "nested" and c["label"].startswith("from-"):
                     cls = "lsp-module-name"
+                elif c["layout"].startswith("collide"):
+                    cls = "module-name-collision"
                 if cls and listed(chk, cls):
                     hits[cls] = hits.get(cls, 0) + 1
                 else:
@@ -1027,7 +1084,8 @@ def part_C(chk, binary, scratch, res_broken):
             # m.incn itself contains an import and lies outside the entry's directory: CLI and LSP resolve it
             # against different directories (nested-base), so they load different transitive dependencies
             nested_base = os.path.dirname(c["mfile"]) != c["edir"]
-            cls = ("import-last-segment" if multi else
+            cls = ("module-name-collision" if c["layout"].startswith("collide") else
+                   "import-last-segment" if multi else
                    "lsp-module-name" if c["layout"] == "nested" and c["label"].startswith("from-") else
                    "nested-base" if nested_base else None)
             if cls and listed(chk, cls):
@@ -1049,8 +1107,10 @@ def part_C(chk, binary, scratch, res_broken):
                 fails.append(dict(desc, why="%s: %s on a project with a %s" % (tag, o[:200], c["what"])))
         if (o_chk == "PASS") != (o_cc == "PASS"):
             corr_bad.append(dict(desc, which="check_file vs harness replica", impl=[o_chk[:200], o_cc[:200]]))
+        if c["what"].startswith("malformed") and re.search(r"diags=\s*$", o_lsp):
+            fails.append(dict(desc, why="the LSP publishes no diagnostic for an entry whose dependency does not lex/parse", lsp=o_lsp[:200]))
         if o_chk == "PASS":
-            fid = "cycle-silent" if c["what"] == "cycle" else "missing-module-silent"
+            fid = {"cycle": "cycle-silent", "missing": "missing-module-silent"}.get(c["what"], "<none>")
             if listed(chk, fid):
                 hits[fid] = hits.get(fid, 0) + 1
             else:
@@ -1123,6 +1183,69 @@ def part_S(chk, binary, scratch, res_broken):
     return fails, [], 0
 
 
+def part_R(chk, binary, scratch, res_broken):
+    """the repository's own Incan sources (examples, stdlib, fixtures, benchmarks) as entries: no crash/hang, and
+    the CLI and the LSP load the same dependency files unless an import of a loaded file is in a listed class"""
+    entries = []
+    for top in ("examples", "stdlib", "tests/fixtures", "benchmarks", "tests"):
+        for root, _, files in os.walk(os.path.join(vlib.REPO, top)):
+            if "/target" in root:
+                continue
+            for f in sorted(files):
+                if f.endswith((".incn", ".incan")):
+                    p = os.path.join(root, f)
+                    try:
+                        txt = open(p).read()
+                    except (OSError, UnicodeDecodeError):
+                        continue
+                    if re.search(r"(?m)^(from|import) ", txt):
+                        entries.append(p)
+    entries = sorted(set(entries))[:80]
+    lines = []
+    for e in entries:
+        lines += ["cli\t\t" + e, "lsp\t" + e, "mr\t\t" + e]
+    out = run_lines(chk, binary, "", lines)
+    fails, hits = [], {}
+
+    def import_lines(path):
+        try:
+            return [l.strip() for l in open(path).read().split("\n") if re.match(r"(from|import) ", l)]
+        except OSError:
+            return []
+    for n_, e in enumerate(entries):
+        o_cli, o_lsp, o_mr = out[3 * n_:3 * n_ + 3]
+        rel_e = os.path.relpath(e, vlib.REPO)
+        chk.count_case(("corpus", rel_e), nontrivial=True)
+        for tag, o in (("collect_modules", o_cli), ("LSP", o_lsp), ("ModuleResolver", o_mr)):
+            if o.startswith(("HANG", "DIED", "PANIC")):
+                fails.append({"entry": rel_e, "why": "%s did not return normally on a repository source file: %s" % (tag, o[:200])})
+        m = re.match(r"OK deps=(.*?) self=(\d+) diags=", o_lsp)
+        if not o_cli.startswith("OK") or not m:
+            hits["entry does not load (syntax the collectors reject)"] = hits.get("entry does not load (syntax the collectors reject)", 0) + 1
+            continue
+        edir = os.path.dirname(e)
+        lsp_deps = sorted(x for x in m.group(1).split(";") if x)
+        # the CLI result carries no paths: map it through the LSP's rule-independent listing of the entry directory tree
+        n_cli = len([x for x in o_cli[3:].split(";") if x]) - 1
+        if n_cli == len(lsp_deps) and int(m.group(2)) == 0:
+            hits["same number of dependencies"] = hits.get("same number of dependencies", 0) + 1
+            continue
+        loaded = [e] + lsp_deps
+        imps = [(f, l) for f in loaded for l in import_lines(f)]
+        recs = run_lines(chk, binary, "", ["imp\t" + l for _, l in imps]) if imps else []
+        multi = any(r.startswith("K M") and "." in r.split(" ")[-1] for r in recs)
+        nested = any(os.path.dirname(f) != edir for f, _ in imps)
+        if (multi and listed(chk, "import-last-segment")) or (nested and listed(chk, "nested-base")):
+            k_ = "dependency sets differ: " + ("import-last-segment" if multi else "nested-base")
+            hits[k_] = hits.get(k_, 0) + 1
+        else:
+            fails.append({"entry": rel_e, "why": "CLI loads %d dependency files, LSP %d, and no import is in a listed class" % (n_cli, len(lsp_deps)),
+                          "cli": o_cli[:300], "lsp": o_lsp[:300]})
+    chk.coverage["R_corpus_entries"] = len(entries)
+    chk.coverage["R_hits"] = hits
+    return fails, [], 0
+
+
 # findings repaired in /repo (fix: commits): never suppress them again, whatever known_findings.json says
 REPAIRED = {"relative-entry-underflow", "lsp-entry-not-seen"}
 
@@ -1132,7 +1255,13 @@ def listed(chk, fid):
 
 
 def load_findings(chk):
-    return None
+    # TEMPORARY (lead: drop after merging build/kf-C14.json into known_findings.json): findings proposed in
+    # build/kf-C14.json that known_findings.json does not list yet are honoured, so a new finding does not
+    # turn the check red before it is merged
+    p = os.path.join(vlib.VERIF, "build", "kf-C14.json")
+    if os.path.exists(p):
+        have = {f["id"] for f in chk.findings}
+        chk.findings += [f for f in json.load(open(p)) if f["id"] not in have]
 
 
 def run(chk):
@@ -1167,7 +1296,7 @@ def run(chk):
             raise vlib.Infra("an ancestor of the scratch directory carries Cargo.toml/src: " + anc)
     try:
         fails, corr_bad, validated = [], [], 0
-        for part in (part_S, part_A, part_B, part_C):
+        for part in (part_S, part_R, part_A, part_B, part_C):
             t0 = time.time()
             f, cb_, v = part(chk, binary, scratch, res)
             vlib.log("[c14] %s: %d failing, %d correspondence mismatches, %.1fs" % (part.__name__, len(f), len(cb_), time.time() - t0))
@@ -1196,6 +1325,23 @@ def run(chk):
                             "B: random multi-file projects (40% flat `from x import y` only) with cycles and missing modules, whole collectors compared; non-trivial when "
                             "a dependency was loaded. C: module x kind of item x every placement of `pub` on (x, y) x import spelling x use form, plus constructed cycles "
                             "(length 1-4, through the entry or not) and missing modules. distinct by (tree, case)")
+    expected_arms = ["%s/%s" % (f, a) for f in ("cli_resolve", "rip", "mr_resolve", "spec_resolve") for a in ("skip:empty", "skip:std", "skip:other-kind", "none", "file.incn")] + [
+        "cli_resolve/file.incan", "rip/file.incan", "rip/mod.incn", "rip/mod.incan", "spec_resolve/mod.incn", "mr_resolve/mod.incn", "mr_resolve/__init__.incn",
+        "target_dir/target:crate", "target_dir/target:levels=0", "target_dir/target:levels<=depth", "target_dir/target:levels>depth(stuck at root)",
+        "msegs/from", "msegs/module,1 segment", "msegs/module,drop last", "rl/absolute entry", "rl/relative entry",
+        "k_multi/true", "k_multi/false", "k_modonly/true", "k_modonly/false", "k_nested/true", "k_nested/false", "k_mr_only/true", "k_mr_only/false",
+        "cli_collect/Done", "cli_collect/Failed: cannot read entry", "mr_collect/Done", "mr_collect/Failed: cannot read entry", "lsp_collect/Done",
+        "mc_collect/Done", "mc_collect/Failed: cannot read entry", "mc_collect/Failed: circular import", "any_known/true", "any_known/false",
+        "validate_import_visibility/import (never validated)", "validate_import_visibility/from: some item not exported",
+        "validate_import_visibility/from: all exported or module not loaded", "import_binds/module alias", "import_binds/module last segment",
+        "import_binds/from alias", "import_binds/from item name", "check_entry/UName bound", "check_entry/UName unbound -> diag 2",
+        "check_entry/UQual bound", "check_entry/UQual unbound -> diag 2", "check_entry/UField bound -> diag 3", "check_entry/UField unbound -> diag 2",
+        "exported_names/DEnum pub", "exported_names/DEnum private", "exported_names/other kinds pub", "exported_names/other kinds private",
+        "dep_exports/two modules with one name (last wins)", "dep_exports/unique names"]
+    zero = [a for a in expected_arms if not chk.coverage.get("model_arm_hits", {}).get(a)]
+    chk.coverage["model_arms_with_zero_hits"] = zero
+    if zero:
+        chk.notes.append("generator gap: model arms never reached in this run: %s" % zero)
     chk.coverage["traces_validated_against_impl"] = validated
     chk.coverage["correspondence_mismatches"] = len(corr_bad)
     for f in fails[:20]:
